@@ -517,6 +517,11 @@ func (vc *FuncVC) scriptShard(only *Obligation, withModel bool, shard, nshards i
 			b.WriteString("(check-sat)\n")
 			if withModel && only == ob {
 				b.WriteString("(get-model)\n")
+				for wi, w := range ob.watch {
+					if w.S != "0" {
+						fmt.Fprintf(&b, "(echo \"@VAL %d\")\n(get-value (%s))\n", wi, w.S)
+					}
+				}
 			}
 			b.WriteString("(pop 1)\n")
 		}
@@ -919,6 +924,7 @@ func (vc *FuncVC) solve(tmpdir string) {
 				if satOut != "" {
 					ob.Verdict = "failed"
 					ob.Model = vc.extractModel(satOut)
+					ob.Values = watchValues(ob, satOut)
 				} else {
 					ob.Verdict = "undecided"
 				}
@@ -983,4 +989,101 @@ func (vc *FuncVC) extractModel(out string) string {
 		keep = keep[:120]
 	}
 	return strings.Join(keep, "\n")
+}
+
+
+// watchValues reads the answers to the get-value queries of a counterexample.
+func watchValues(ob *Obligation, out string) map[string]string {
+	if len(ob.watch) == 0 {
+		return nil
+	}
+	vals := map[string]string{}
+	for _, w := range ob.watch {
+		if w.S == "0" {
+			vals[w.Label] = ""
+		}
+	}
+	parts := strings.Split(out, "@VAL ")
+	for _, p := range parts[1:] {
+		nl := strings.Index(p, "\n")
+		if nl < 0 {
+			continue
+		}
+		var wi int
+		if _, err := fmt.Sscanf(strings.Trim(p[:nl], "\" \r"), "%d", &wi); err != nil || wi < 0 || wi >= len(ob.watch) {
+			continue
+		}
+		body := strings.TrimSpace(p[nl+1:])
+		if i := strings.Index(body, "\n@"); i >= 0 {
+			body = body[:i]
+		}
+		if v, ok := secondOfPair(body); ok {
+			vals[ob.watch[wi].Label] = v
+		}
+	}
+	return vals
+}
+
+// secondOfPair extracts VALUE from "((TERM VALUE))".
+func secondOfPair(s string) (string, bool) {
+	s = strings.TrimSpace(s)
+	if !strings.HasPrefix(s, "((") {
+		return "", false
+	}
+	// skip TERM: one s-expression starting at index 2
+	i := 2
+	skip := func() bool {
+		for i < len(s) && (s[i] == ' ' || s[i] == '\n') {
+			i++
+		}
+		if i >= len(s) {
+			return false
+		}
+		depth := 0
+		instr := false
+		for ; i < len(s); i++ {
+			c := s[i]
+			if instr {
+				if c == '"' {
+					instr = false
+					if depth == 0 {
+						i++
+						return true
+					}
+				}
+				continue
+			}
+			switch c {
+			case '"':
+				instr = true
+			case '(':
+				depth++
+			case ')':
+				if depth == 0 {
+					return true
+				}
+				depth--
+				if depth == 0 {
+					i++
+					return true
+				}
+			case ' ', '\n':
+				if depth == 0 {
+					return true
+				}
+			}
+		}
+		return true
+	}
+	if !skip() {
+		return "", false
+	}
+	for i < len(s) && (s[i] == ' ' || s[i] == '\n') {
+		i++
+	}
+	st := i
+	if !skip() {
+		return "", false
+	}
+	return strings.TrimSpace(s[st:i]), true
 }
